@@ -28,10 +28,13 @@ def run(ctx, pid=PID, families=(("commit", 120, 600), ("retry", 60, 300)), mutan
     thorough = ctx.tier == "thorough"
     ctx._core_bin = ctx.go_test_build("pipeline")      # fail fast if the tree does not build
     # 1. design level
-    ctx.tlc_expect_ok("Pipeline", "Pipeline_base.cfg", timeout=1500, deadlock=False,
+    import os
+    dev = os.environ.get("VERIF_DEV_SKIP_DESIGN") == "1"     # development aid for mutation testing only
+    if not dev:
+      ctx.tlc_expect_ok("Pipeline", "Pipeline_base.cfg", timeout=1500, deadlock=False,
                       overrides={"MaxId": "4", "Classes": '{"P", "D", "H", "C"}'} if thorough else None,
                       name="Pipeline/base")
-    ctx.tlc_expect_ok("Pipeline", "Pipeline_res.cfg", timeout=1500, deadlock=False,
+      ctx.tlc_expect_ok("Pipeline", "Pipeline_res.cfg", timeout=1500, deadlock=False,
                       overrides={"HasDQ": "TRUE", "MaxFails": "2", "Classes": '{"P"}', "Strs": '{"a"}',
                                  "MaxId": "4" if thorough else "3"}, name="Pipeline/dq-residual")
     d2 = ctx.tlc("Pipeline", "Pipeline_d2.cfg", timeout=900, deadlock=False,
